@@ -38,7 +38,7 @@ CHECKS = {
         "text": "Decides for all CNFs/arities: every literal a gadget closure returns lies in the block the transformation allocated for that "
                 "original variable (polynomial bound check), blocks are disjoint, the allocated count equals the documented count and is "
                 "explicit, the sign is applied to value variables only, the negated-operator table is the logical negation, complementary "
-                "gadget thresholds. Does NOT decide that gadget CNFs compute the named function on all assignments.",
+                "gadget thresholds. That a gadget CNF computes the named function is decided by C04's builder rules (borrowed) and compared on small instances only.",
         "note": _NOTE,
     },
     "C06": {
@@ -159,5 +159,41 @@ CHECKS = {
         "note": _NOTE,
     },
 }
+
+_GATE = (" All rules run behind the function-normal-form gate (sa/fnf.py): a function whose normal form equals that of its reviewed copy "
+         "under /verif/reference is analysed in the reviewed form, so a refactoring does not disturb the shape rules.")
+
+# bounded folding (sa/fold.py, sa/objfold.py): the analyser's own evaluator over the syntax trees of small fragments on finite tables of
+# instances with stand-in objects; nothing of cnfgen is imported or run.  Used as a filter on shape-rule alarms (meaning confirmed ->
+# the unrecognised shape is recorded as undecided) and as a finding of its own when the documented meaning is refuted on an instance.
+_FOLD = {
+    "C01": "bounded folding: add_linear / add_parity by truth table (borrowed from C04), PHP argument forms, differential folding of command line helpers against the reviewed copy",
+    "C02": "bounded folding: unique_neighborhoods over all graphs on <= 4 vertices, TseitinFormula charges over stand-in graphs, differential folding of command line helpers",
+    "C03": "bounded folding: differential folding of command line helpers against the reviewed copy; the builders' truth tables (C04)",
+    "C04": "bounded folding: add_linear (all operators, 0..3 literals, constants -1..n+1), add_parity and normalize_opb compared by truth table; variable groups through the object model",
+    "C05": "bounded folding (COMPOSITION): each of the 15 transformations folded on small inputs (every single-clause formula of <= 3 literals over 2 variables, empty clause, unused variable) over a stand-in formula class with semantic builders and compared with the gadget composition by truth table",
+    "C06": "bounded folding: to_dimacs_file over stand-in formulas / headers with line breaks, read back by the DIMACS grammar under universal-newline semantics",
+    "C07": "bounded folding: --no-* switch tables of cnfshuffle / -T shuffle",
+    "C08": "bounded folding: variable counters, add_clause / add_clauses_from; builders by truth table (C04)",
+    "C09": "bounded folding (SHUFFLE-SEMANTICS): Shuffle on formulas of <= 3 variables / clauses for every mode, with a scripted stand-in for the random module; every invalid explicit argument exhaustively",
+    "C10": "bounded folding: counters of both formula classes, _add_variable_group, add_clauses_from with a lazily produced batch, every kind of variable group created through VariablesManager.new_* in the object model (GROUP-SEMANTICS), the random generators over a stand-in formula class",
+    "C11": "bounded folding (GROUP-SEMANTICS): every kind of variable group created by folding VariablesManager.new_* through the object model on stand-in formulas / graphs -- fresh consecutive ids in index order, inverse maps for both literal signs, labels, wildcard patterns, rejection of every out-of-domain coordinate; all_variable_labels over group layouts with gaps",
+    "C12": "bounded folding (WRITER-SEMANTICS): to_opb_file and _print_latex over CNF and pseudo-Boolean stand-ins, read back by the format's grammar; guess_output_format table",
+    "C13": "bounded folding (SAMPLE-SEMANTICS): predicates exhaustively, enumerators against the full enumeration, samplers and generators under scripted random stand-ins of three periods",
+    "C14": "function normal form gate only",
+    "C15": "function normal form gate only",
+    "C16": "bounded folding: Graph.update_vertex_number, BipartiteGraph.from_networkx orientation",
+    "C17": "bounded folding: parse_command_line splitting, PHP argument forms exhaustively over 0..3, cnfgen.cli driver over scripted parsers / helpers (order and options of the -T chain), differential folding of every helper against the reviewed copy",
+    "C18": "bounded folding: cli drivers of cnfgen / pbgen over scripted helpers (error conversion, prefix scope), error_msg, the writers read back (borrowed)",
+    "C19": "bounded folding: add_description / Shuffle provenance entries; differential folding of transformation helpers",
+    "C20": "bounded folding (BRIDGE-SEMANTICS): the three solver interfaces and sat_solve over a stand-in file table and a scripted process: verdicts, RuntimeError for unusable answers and unstartable solvers, DIMACS hand-over, argument words with blanks in file names, removal of temporary files",
+}
+for _pid, _c in CHECKS.items():
+    _c["technique"] = _c["technique"] + "; " + _FOLD[_pid] + "." + _GATE
+    if "gate only" not in _FOLD[_pid]:
+        _c["text"] = _c["text"] + (" In addition the documented meaning of the fragments named under `technique` is compared on finite "
+                                   "tables of small instances by bounded folding of their syntax trees (no code of cnfgen is run); "
+                                   "that comparison filters shape-rule alarms and refutes on a concrete instance, it is not a proof "
+                                   "for all inputs.")
 
 NOT_APPLICABLE = {}
